@@ -30,6 +30,7 @@ func tiingoHTTPMain(args []string) {
 		Body   string `json:"body"`
 		Rows   int    `json:"rows"` // complete rows in the body
 		Wf     bool   `json:"wf"`   // the body is a complete JSON array of rows
+		Loose  bool   `json:"loose"` // an array with elements that are no rows: only "no panic, no hang, no more than the array holds"
 	}
 	var cases []tcase
 	row := func(i int) string { return fmt.Sprintf(tiingoRow, i) }
@@ -47,6 +48,13 @@ func tiingoHTTPMain(args []string) {
 		{Body: "[" + row(1) + `,"text",` + row(2) + "]", Rows: 1},
 		{Body: "[" + row(1) + "]]]garbage", Rows: 1},
 		{Body: "\xff\xfe\x00", Rows: 0},
+		// elements that are JSON values but no rows (a null decodes without error into whatever the reader decodes into)
+		{Body: "[" + row(1) + ",null," + row(2) + "]", Rows: 3, Loose: true},
+		{Body: "[null]", Rows: 1, Loose: true},
+		{Body: "[" + row(1) + ",42," + row(2) + "]", Rows: 3, Loose: true},
+		{Body: "[[]," + row(1) + "]", Rows: 2, Loose: true},
+		{Body: "[" + row(1) + `,{"date":null},` + row(2) + "]", Rows: 3, Loose: true},
+		{Body: `[{"date":"garbage"},` + row(1) + "]", Rows: 2, Loose: true},
 	}
 	for _, st := range []int{200, 201, 204, 400, 401, 404, 429, 500, 503} {
 		for _, b := range bodies {
@@ -72,6 +80,7 @@ func tiingoHTTPMain(args []string) {
 	checks := 0
 	for i, c := range cases {
 		cur = c
+		fmt.Fprintf(os.Stderr, "CASE %d status %d body %q\n", i, c.Status, c.Body[:min(len(c.Body), 60)]) // attributes a death of the process
 		repo := asset.NewTiingoRepository("key")
 		repo.BaseURL = srv.URL
 		repo.Logger = quietLog
@@ -106,6 +115,10 @@ func tiingoHTTPMain(args []string) {
 				}
 			} else if r.err != nil {
 				out = append(out, mm{i, fmt.Sprintf("GetSince on %s fails: %v", desc, r.err)})
+			} else if c.Loose {
+				if r.n > c.Rows {
+					out = append(out, mm{i, fmt.Sprintf("GetSince on %s delivers %d rows, the array has %d elements", desc, r.n, c.Rows)})
+				}
 			} else if c.Wf && r.n != c.Rows {
 				out = append(out, mm{i, fmt.Sprintf("GetSince on %s delivers %d rows, the body holds %d", desc, r.n, c.Rows)})
 			} else if r.n > c.Rows && !strings.Contains(c.Body, `"text"`) {
